@@ -118,6 +118,7 @@ func walkK8sStream(cs *Case, so *streamObs, st *oracleStats, note func(*Viol)) *
 		return e.tags[0].Idx
 	}
 	pos, a := 0, 0
+	afterHuge := false
 	for pos < len(lines) {
 		// the run [pos, e)
 		e := pos
@@ -188,8 +189,13 @@ func walkK8sStream(cs *Case, so *streamObs, st *oracleStats, note func(*Viol)) *
 		}
 		if ev.broken {
 			// reported as invalid JSON already; with a cut-off it stands for the cut line
-			st.add("k8s_cut_off_invalid_json", 1)
-			pos = e
+			if cs.CutOff && cs.PipeMax > 0 {
+				st.add("k8s_cut_off_invalid_json", 1)
+				pos = e
+			} else {
+				st.add("k8s_invalid_json_events", 1)
+				pos = q // the chunks whose tags the raw text shows
+			}
 			a++
 			continue
 		}
@@ -328,6 +334,13 @@ func walkK8sStream(cs *Case, so *streamObs, st *oracleStats, note func(*Viol)) *
 		}
 		n := q - pos
 		if !cut && q == e {
+			if len(full) > 512*1024 {
+				st.add("k8s_huge_lines_joined", 1)
+				st.fp("k8s/whole/huge")
+				afterHuge = true
+			} else if afterHuge && n > 1 {
+				st.add("k8s_lines_joined_after_huge", 1)
+			}
 			if n > 1 {
 				st.add("runs_joined", 1)
 				st.add("lines_collapsed", int64(n-1))
